@@ -38,6 +38,11 @@ pub enum CK {
     Field,
     Cond,
     Lam,
+    /// lambdas with other parameter lists: a single rest parameter, a single optional one, none, required + optional + rest
+    LamRest,
+    LamOpt,
+    LamNone,
+    LamMulti,
     Assign,
     Do,
     List,
@@ -47,7 +52,7 @@ pub enum CK {
 
 pub fn child_kinds() -> Vec<CK> {
     let mut v: Vec<CK> = ALL_OPS.iter().map(|o| CK::Bin(*o)).collect();
-    v.extend([CK::Neg, CK::Not, CK::Fact, CK::Call, CK::Index, CK::Field, CK::Cond, CK::Lam, CK::Assign, CK::Do, CK::List, CK::Rec, CK::NegLit]);
+    v.extend([CK::Neg, CK::Not, CK::Fact, CK::Call, CK::Index, CK::Field, CK::Cond, CK::Lam, CK::LamRest, CK::LamOpt, CK::LamNone, CK::LamMulti, CK::Assign, CK::Do, CK::List, CK::Rec, CK::NegLit]);
     v
 }
 
@@ -80,6 +85,10 @@ pub fn mk_child(ck: &CK) -> H {
         CK::Field => H::Field(Box::new(a()), "k".into()),
         CK::Cond => H::Cond(Box::new(a()), Box::new(b()), Box::new(id("c"))),
         CK::Lam => lam1("x", bin(Op::Add, id("x"), a())),
+        CK::LamRest => H::Lam(vec![Arg::Rest("xs".into())], Box::new(H::List(vec![id("xs"), a()]))),
+        CK::LamOpt => H::Lam(vec![Arg::Opt("x".into())], Box::new(bin(Op::Coal, id("x"), a()))),
+        CK::LamNone => H::Lam(vec![], Box::new(bin(Op::Add, a(), b()))),
+        CK::LamMulti => H::Lam(vec![Arg::Req("x".into()), Arg::Opt("y".into()), Arg::Rest("zs".into())], Box::new(H::List(vec![id("x"), id("y"), id("zs"), a()]))),
         CK::Assign => assign("t", a()),
         CK::Do => H::Do(vec![assign("t", a())], Box::new(bin(Op::Add, id("t"), b()))),
         CK::List => H::List(vec![a(), b()]),
@@ -156,6 +165,10 @@ pub fn child_class(ck: &CK) -> String {
         CK::Field => "Field".into(),
         CK::Cond => "Cond".into(),
         CK::Lam => "Lambda".into(),
+        CK::LamRest => "Lambda(rest-parameter-only)".into(),
+        CK::LamOpt => "Lambda(optional-parameter-only)".into(),
+        CK::LamNone => "Lambda(no-parameters)".into(),
+        CK::LamMulti => "Lambda(required-optional-rest)".into(),
         CK::Assign => "Assign".into(),
         CK::Do => "Do".into(),
         CK::List => "List".into(),
